@@ -5,6 +5,8 @@ CONSTANTS NP = 1
           Devs = {}
           Cfgs = {}
           Msgs = {}
+          GFamily = "pool"
+          GReplaces = {TRUE}
           GD = 3
           GE = 3
           GLen = 1
